@@ -210,6 +210,15 @@ pub fn run(ctx: Ctx) -> ! {
             s = e;
         }
     }
+    // development aid: `--chunks=lo:hi` (permille of the chunk list) restricts the run; never used by ./check
+    let chunk_range = ctx.extra_args.iter().find_map(|a| a.strip_prefix("--chunks=")).map(|r| {
+        let (a, b) = r.split_once(':').unwrap_or(("0", "1000"));
+        (a.parse::<usize>().unwrap_or(0), b.parse::<usize>().unwrap_or(1000))
+    });
+    if let Some((lo, hi)) = chunk_range {
+        let n = chunks.len();
+        chunks = chunks[n * lo / 1000..n * hi / 1000].to_vec();
+    }
     // VERIF_SEED only permutes shard order
     if ctx.seed != 0 && !chunks.is_empty() {
         let n = chunks.len();
@@ -478,7 +487,7 @@ pub fn run(ctx: Ctx) -> ! {
     }
 
     // vacuity guards (machinery failures, not verdicts)
-    if exhaustive && ctx.extra_args.iter().all(|a| !a.starts_with("--only=")) {
+    if exhaustive && ctx.extra_args.iter().all(|a| !a.starts_with("--only=") && !a.starts_with("--chunks=")) {
         for (f, n) in &fired_counts {
             if *n == 0 {
                 ctx.machinery(&format!("vacuous: no program made fusion {f} fire with a successful reference run"));
